@@ -45,7 +45,7 @@ pub fn property_of(c: Clause, scn: &Scenario) -> &'static str {
         Clause::RawLeak | Clause::RawPanicLost | Clause::FaultedUsable | Clause::RawDoubleRelease | Clause::RawCollateralKill => "C12",
         Clause::TryOutcome | Clause::TryStateChanged => "C13",
         Clause::DropCount | Clause::RoundTrip => "C16",
-        Clause::NonAcqBlocking | Clause::NonAcqStateChanged => "C17",
+        Clause::NonAcqBlocking | Clause::NonAcqStateChanged | Clause::RawStateOverwritten => "C17",
         Clause::Harness => "HARNESS",
     }
 }
@@ -60,6 +60,10 @@ pub fn properties_of(e: &Event, scn: &Scenario) -> Vec<&'static str> {
     // a lock still held when the unwind has given the key back is also "key back while holding"
     if matches!(e.clause, Clause::LeakAfterUserPanic) {
         v.push("C03");
+    }
+    // a hold that ends because the raw lock was reset was not released by its holder
+    if matches!(e.clause, Clause::RawStateOverwritten) && !scn.cfg.faults.raw_faults() {
+        v.push("C05");
     }
     v
 }
